@@ -314,6 +314,11 @@ def gen_op(draw, m: M, t, opts):
         m.apply(op, t)
         return op
     if k == "TSS":
+        if opts.get("cancel", True) and m.valid and not m.value and draw(st.integers(0, 2)) == 0:
+            # clear() of a set that is already empty: a mutation call that changes nothing and must leave no trace
+            op = {"k": "S", "ops": [["clear"]]}
+            m.apply(op, t)
+            return op
         nmax = 4 if opts.get("multi", True) else 1
         ops = []
         universe = opts.get("keys", 8)
